@@ -69,3 +69,10 @@ schema('core.matcher.MessagePattern', conn_matcher=M_, obj_matcher=M_, name_matc
 
 schema('backends.libwayland_debug_output.parse.Parser', out='Obj("core.output.output.Output")',
        sink='Obj("interfaces.connection_id_sink.ConnectionIDSink")', known_connections='Set(str)', last_time='float')
+
+# ---- GDB plugin
+schema('gdb.Thread', global_num='int')
+schema('backends.gdb_plugin.plugin.Plugin', out='Obj("core.output.output.Output")',
+       connection_id_sink='Obj("interfaces.connection_id_sink.ConnectionIDSink")', command_sink='Obj("interfaces.command_sink.CommandSink")',
+       state='Obj("core.persistent_ui_state.PersistentUIState")',
+       connections='Dict(str, Tuple(int, Obj("interfaces.connection.Connection")))')
